@@ -54,6 +54,16 @@ def load_modules():
     return analytic, simulation
 
 
+WORST = {}
+
+
+def worst(name, value):
+    """largest observed deviation per comparison (printed into the evidence: how much room the tolerances leave)"""
+    value = float(value)
+    if value == value and value > WORST.get(name, 0.0):
+        WORST[name] = value
+
+
 def rel(a, b):
     return abs(a - b) / max(abs(a), abs(b), 1e-300)
 
@@ -87,7 +97,7 @@ def gen_axes(rng, d):
 def run_ellipse(rep, rng, drv, tier, analytic):
     import mpmath as mp
     mp.mp.dps = 40
-    per_d = 6 if tier == "quick" else 40
+    per_d = 12 if tier == "quick" else 60
     cases = [(d, gen_axes(rng, d)) for d in range(0, 13) for _ in range(per_d)]
     replies = drv.run([("exp.ellipse", "1 " + C.flist(cs)) for _, cs in cases])
     for (d, cs), r in zip(cases, replies):
@@ -106,6 +116,7 @@ def run_ellipse(rep, rng, drv, tier, analytic):
         ex = exact_ellipse(cs)
         err_exact = float(abs(mp.mpf(v) - ex) / ex)
         rep.case(("ellipse", d, tuple(cs)), sample=dict(op="ellipse_volume", cs=cs, impl=v, exact=float(ex)))
+        worst("ellipse_vs_exact_ulps", err_exact / ULP)
         if err_exact > TOL_EXACT_ULPS * ULP:
             rep.violate(what="ellipse_volume(cs) differs from pi^(d/2)/Gamma(d/2+1)*prod(cs) by more than 64 ulps",
                         input=inp, expected=float(ex), observed=v, relative_error=err_exact, call=call)
@@ -113,6 +124,7 @@ def run_ellipse(rep, rng, drv, tier, analytic):
             rep.disagree(op="exp.ellipse", note="model rejected / raised on a valid 1-D input", input=inp)
         else:
             m, spread = C.unhex(r[0]), C.unhex(r[1])
+            worst("ellipse_vs_model_ulps", rel(v, m) / ULP)
             if not abs(v - m) <= TOL_MODEL * abs(m) + 16 * spread and err_exact <= TOL_EXACT_ULPS * ULP:
                 rep.disagree(op="exp.ellipse", note="Float model and implementation differ although the implementation "
                              "matches the exact formula", input=inp, model=m, impl=v)
@@ -123,6 +135,7 @@ def run_ellipse(rep, rng, drv, tier, analytic):
         rng.shuffle(perm)
         vp = float(analytic.ellipse_volume(perm))
         rep.case(("ellipse_perm", d, tuple(perm)))
+        worst("ellipse_permutation_ulps", rel(vp, v) / ULP)
         if rel(vp, v) > (d + 2) * ULP:
             rep.violate(what="ellipse_volume is not permutation invariant (beyond the rounding of d multiplications)",
                         input=dict(inp, permuted=perm), expected=v, observed=vp, call=f"ellipse_volume({perm!r})")
@@ -134,6 +147,8 @@ def run_ellipse(rep, rng, drv, tier, analytic):
             vs = float(analytic.ellipse_volume(sc))
             rep.case(("ellipse_homog", d, i, t, tuple(cs)))
             exact_scaling = math.frexp(t)[0] == 0.5
+            if not exact_scaling:
+                worst("ellipse_homogeneity_ulps", rel(vs, t * v) / ULP)
             if (vs != t * v) if exact_scaling else (rel(vs, t * v) > (d + 4) * ULP):
                 rep.violate(what="ellipse_volume is not homogeneous of degree one in axis %d" % i,
                             input=dict(inp, axis=i, factor=t), expected=t * v, observed=vs,
@@ -235,13 +250,13 @@ def run_params(rep, rng, drv, tier, analytic):
     from scipy.stats import qmc
     import mpmath as mp
     mp.mp.dps = 40
-    n_cases = 48 if tier == "quick" else 400
+    n_cases = 120 if tier == "quick" else 600
     qs = []
     for k in range(n_cases):
         d = 1 + k % 6
         kind = "rotated" if (d >= 2 and (k // 6) % 2 == 1) else "diag"
         qs.append(gen_quadratic(rng, d, kind))
-    for _ in range(4 if tier == "quick" else 30):
+    for _ in range(6 if tier == "quick" else 30):
         qs.append(gen_quadratic(rng, 1, "diag", centred_1d=True))
 
     outs = []
@@ -283,6 +298,7 @@ def run_params(rep, rng, drv, tier, analytic):
         ar, br = float(np.real(a)), float(np.real(b))
         # b: the maximum of f, to the black-box optimiser's accuracy, and never above it
         rep.case(("params_b", d, q["np_seed"]))
+        worst("b_vs_true_maximum_rel", abs(br - q["b"]) / max(1.0, abs(q["b"])))
         if abs(br - q["b"]) > TOL_B * max(1.0, abs(q["b"])) or br > q["b"] + 64 * ULP * max(1.0, abs(q["b"])):
             rep.violate(what="b is not the maximum of f (differs by more than 1e-6, or exceeds it)", input=inp,
                         expected=q["b"], observed=br, call=REPLAY_SNIPPET)
@@ -311,6 +327,7 @@ def run_params(rep, rng, drv, tier, analytic):
             rep.case(("params_a", d, q["np_seed"]), sample=dict(op="get_approximation_parameters", d=d, kind=q["kind"],
                                                                  impl=[ar, br, c], model=[am, bm, cm]))
             a_ok = abs(ar - am) <= TOL_MODEL * scale + 16 * sa
+            worst("a_vs_model_rel", abs(ar - am) / scale)
             if bm != br or cm != c:
                 rep.disagree(op="exp.params", note="model b/c differ from the implementation's", input=inp, model=[bm, cm], impl=[br, c])
         # ---- the property: exact tail probability against 1 - cdf of the returned parameters
@@ -332,6 +349,7 @@ def run_params(rep, rng, drv, tier, analytic):
             pe = exact_tail(q, y)
             rep.case(("tail", d, q["np_seed"], j), sample=dict(op="P[f(X)>y] vs 1-cdf(y)", d=d, kind=q["kind"], y=y,
                                                                 exact=pe, impl=float(tc)))
+            worst("tail_vs_exact_abs", abs(tc - pe))
             if not abs(tc - pe) <= TOL_TAIL:
                 tail_bad = True
                 rep.violate(what="P[f(X) > y] (exact volume ratio, level ellipsoid inside the box) differs from "
@@ -340,6 +358,7 @@ def run_params(rep, rng, drv, tier, analytic):
                             call=REPLAY_SNIPPET + "; 1 - QuadraticDistribution(a, b, c, convex=False).cdf(y)")
             if rt is not None:
                 tm, st = C.unhex(rt[2 * j]), C.unhex(rt[2 * j + 1])
+                worst("tail_vs_model_abs", abs(tc - tm))
                 if not abs(tc - tm) <= TOL_MODEL + 16 * st and a_ok and abs(tc - pe) <= TOL_TAIL:
                     rep.disagree(op="exp.tail", note="Float model of 1 - cdf(y) and the implementation differ although both "
                                  "agree on a and the implementation matches the exact probability", input=dict(inp, y=y),
@@ -370,6 +389,7 @@ def run_params(rep, rng, drv, tier, analytic):
             pq = float(np.mean(f(X) > y0))
             pe = exact_tail(q, y0)
             rep.count("oracle_sobol_checks")
+            worst("oracle_sobol_vs_exact_abs", abs(pq - pe))
             if abs(pq - pe) > 0.03:
                 rep.disagree(op="oracle", note="the closed-form probability disagrees with its quasi-Monte-Carlo estimate "
                              "(the harness's oracle is wrong)", input=dict(inp, y=y0), exact=pe, sobol=pq)
@@ -449,7 +469,7 @@ def optimiser_locates(func, bounds, target_min, target_max, adj_seed):
 
 
 def run_sim(rep, rng, drv, tier, simulation):
-    n_cases = 36 if tier == "quick" else 300
+    n_cases = 70 if tier == "quick" else 400
     sims = [gen_sim(rng, k, tier) for k in range(n_cases)]
     reqs, meta = [], []
     for s in sims:
@@ -514,6 +534,7 @@ def run_sim(rep, rng, drv, tier, simulation):
         rep.case(("sim_range", nt, ns, nd, s["seed"]))
         lo_gap = float(r1.y_min) - float(np.min(r1.yss))
         hi_gap = float(np.max(r1.yss)) - float(r1.y_max)
+        worst("sim_range_excess", max(lo_gap, hi_gap, 0.0))
         if not (float(r1.y_min) <= float(r1.y_max)) or lo_gap > TOL_RANGE or hi_gap > TOL_RANGE:
             ok, best_min, best_max = optimiser_locates(func, s["bounds"], float(np.min(r1.yss)), float(np.max(r1.yss)), s["adj_seed"])
             if ok:
@@ -598,6 +619,7 @@ def run(seed, tier, replay=None):
     if replay is not None:
         seed, tier = int(replay.get("seed", seed)), replay.get("tier", tier)
     analytic, simulation = load_modules()
+    WORST.clear()
     rep = C.Report("C20", seed, tier)
     drv = C.Driver()
     run_ellipse(rep, C.rng_for("C20.ellipse", seed), drv, tier, analytic)
@@ -613,7 +635,7 @@ def run(seed, tier, replay=None):
              "exact P[f(X)>y] (closed-form volume ratio) within 1e-6 of 1-cdf(y) at levels whose ellipsoid lies in the box; "
              "Simulation.run: shapes, bounds, yss=func(xss), first-trial slices, yss_cummax == model exactly, "
              "y_min<=yss<=y_max to 1e-9 (unless the optimiser cannot locate the optima), determinism",
-        extra=dict(driver_lines=drv.lines))
+        extra=dict(driver_lines=drv.lines, extra=dict(worst_observed_deviation=dict(WORST))))
 
 
 if __name__ == "__main__":
